@@ -1,4 +1,5 @@
 import NessaiVerif.Model.Accounts
+import NessaiVerif.Model.AccountsTables
 /-
 C12 — helper lemmas: the invariant that links the code-shaped account state (`St`: counters that restart at 0 in a
 fresh process and are re-seeded with `+=` from the pickle, a sampling clock with a re-armed start) with the
@@ -320,3 +321,47 @@ theorem retained_all_without_kill (h : List Op) :
       simpa [logOf, logStep, performed] using this
 
 end NessaiVerif.Accounts
+
+namespace NessaiVerif.AccountsTables
+
+theorem lookup_filter_key {α : Type} (p : String → Bool) (f : String) (s : List (String × α)) :
+    (s.filter fun kv => p kv.1).lookup f = if p f then s.lookup f else none := by
+  induction s with
+  | nil => simp [List.lookup]
+  | cons kv s ih =>
+    obtain ⟨k, v⟩ := kv
+    by_cases hk : f == k
+    · have hfk : f = k := by simpa using hk
+      subst hfk
+      by_cases hp : p f
+      · simp [List.filter, hp, List.lookup]
+      · simp [List.filter, hp, ih]
+    · by_cases hp : p k
+      · simp [List.filter, hp, List.lookup, hk, ih]
+      · simp [List.filter, hp, List.lookup, hk, ih]
+
+theorem lookup_append_none {α : Type} (f : String) (a b : List (String × α)) (h : a.lookup f = none) :
+    (a ++ b).lookup f = b.lookup f := by
+  induction a with
+  | nil => rfl
+  | cons kv a ih =>
+    obtain ⟨k, v⟩ := kv
+    cases hk : (f == k) with
+    | true => simp only [List.lookup_cons, hk] at h; cases h
+    | false =>
+      simp only [List.cons_append, List.lookup_cons, hk] at h ⊢
+      exact ih h
+
+/-- `resume ∘ checkpoint` is the identity on every attribute that the `__getstate__` in force does not drop and that
+the resume path does not assign — for every state and whatever the resume path derives. -/
+theorem resume_pickle_lookup {α : Type} (ts : List ClassTable) (sites : List Site) (c f : String)
+    (s fresh : List (String × α)) (hd : dropped ts c f = false) (ht : touched ts sites c f = false) :
+    (resumeState ts sites c fresh (pickleState ts c s)).lookup f = s.lookup f := by
+  unfold resumeState pickleState
+  rw [lookup_append_none]
+  · rw [lookup_filter_key (fun k => !dropped ts c k)]
+    simp [hd]
+  · rw [lookup_filter_key (fun k => touched ts sites c k)]
+    simp [ht]
+
+end NessaiVerif.AccountsTables
